@@ -409,7 +409,7 @@ func (r *runner) Exec(op string) (reply string, viol string) {
 		})
 		if err != nil {
 			// C04_watch_only / C03: an address the harness knows was issued must be found
-			if h.chained && r.issuedKnown(h) && waddrmgr.IsError(err, waddrmgr.ErrAddressNotFound) {
+			if m := r.accts[scope][h.acct]; h.chained && m != nil && m.gen == 0 && r.issuedKnown(h) && waddrmgr.IsError(err, waddrmgr.ErrAddressNotFound) {
 				v = append(v, fmt.Sprintf("C03 key=lookup.issued-address-not-found: %s", ckey(scope, h.acct, h.br, h.idx)))
 			}
 			return r.finish("", err, tap, v)
